@@ -154,10 +154,11 @@ def c16_2(ctx):
             ctx.bad("codec-missing:%s" % ch, SST + ":1", "no codec for %r" % ch)
             continue
         p, s = pair
+        cfmt = ">" + fmt[1:] if fmt.startswith("!") else fmt       # the engine writes network order as '>'
         pb, pa = _lam(p)
         sb, sa_ = _lam(s)
-        okp = pb == "struct.unpack('%s', %s.read(%d))[0]" % (fmt, pa[0] if pa else "f", width)
-        oks = sa_ is not None and len(sa_) == 2 and sb == "%s.write(struct.pack('%s', %s))" % (sa_[0], fmt, sa_[1])
+        okp = pb == "struct.unpack('%s', %s.read(%d))[0]" % (cfmt, pa[0] if pa else "f", width)
+        oks = sa_ is not None and len(sa_) == 2 and sb == "%s.write(struct.pack('%s', %s))" % (sa_[0], cfmt, sa_[1])
         ctx.check(okp and oks and struct.calcsize(fmt) == width, "wire-type:%s" % ch, SST + ":1",
                   "codec %r parses with `%s` and streams with `%s`; the wire type is struct %r (%d bytes, same format on both sides, value after format)" % (ch, pb, sb, fmt, width),
                   sample={"letter": ch, "parse": pb, "stream": sb})
